@@ -104,6 +104,8 @@ MUTANTS = [
     ("C17 revert fix: unsynchronised static mut generator", "C17", True, [(TN, TLS_DECL, "static mut RNG: Rng = Rng::from_seed(42);\n"), (TN, TLS_RNG, "    #[allow(static_mut_refs)]\n    unsafe {\n        RNG.next_raw() as Priority\n    }\n")]),
     ("C17 global atomic state with separate load and store", "C17", True, [(TN, TLS_DECL, "static STATE: std::sync::atomic::AtomicU64 = std::sync::atomic::AtomicU64::new(42);\n"), (TN, TLS_RNG, "    let mut rng = Rng::from_seed(STATE.load(std::sync::atomic::Ordering::Relaxed));\n    let p = rng.next_raw();\n    STATE.store(p, std::sync::atomic::Ordering::Relaxed);\n    p as Priority\n")]),
     ("C17 push skipped while another thread is inside push (process-wide guard flag)", "C17", True, [(TN, "    pub fn push(&mut self) {\n        self.item.push(", "    pub fn push(&mut self) {\n        static IN_PUSH: std::sync::atomic::AtomicBool = std::sync::atomic::AtomicBool::new(false);\n        if IN_PUSH.swap(true, Ordering::AcqRel) {\n            return;\n        }\n        struct Reset;\n        impl Drop for Reset {\n            fn drop(&mut self) {\n                IN_PUSH.store(false, Ordering::Release);\n            }\n        }\n        let _reset = Reset;\n        self.item.push(")]),
+    ("C03 remove_at merges in the wrong order - only when the verif feature is OFF", "C03", True, [(TR, "        self.root = TreapNode::merge(t1, t3);\n        t2.unwrap().item", "        #[cfg(feature = \"verif\")]\n        {\n            self.root = TreapNode::merge(t1, t3);\n        }\n        #[cfg(not(feature = \"verif\"))]\n        {\n            self.root = TreapNode::merge(t3, t1);\n        }\n        t2.unwrap().item")]),
+    ("C08 end of input after a short read - only when the verif feature is OFF", "C08", True, [(RD, "        if bytes == 0 {\n            self.eof = true;\n        }", "        if bytes == 0 || (cfg!(not(feature = \"verif\")) && self.end + bytes < self.buf.len() && bytes == 3) {\n            self.eof = true;\n        }")]),
     ("C16 every thread seeds its generator from the wall clock", "C16", True, [(TN, "    static RNG: Cell<Rng> = Cell::new(Rng::from_seed(thread_seed()));", "    static RNG: Cell<Rng> = Cell::new(Rng::from_time());")]),
     ("C17 harmless: one global generator behind a Mutex", "C17", False, [(TN, TLS_DECL, "static RNG: std::sync::Mutex<Rng> = std::sync::Mutex::new(Rng::from_seed(42));\n"), (TN, TLS_RNG, "    RNG.lock().unwrap().next_raw() as Priority\n")]),
     ("C17 harmless: global atomic state advanced with fetch_update", "C17", False, [(TN, TLS_DECL, "static STATE: std::sync::atomic::AtomicU64 = std::sync::atomic::AtomicU64::new(42);\n"), (TN, TLS_RNG, "    use std::sync::atomic::Ordering::Relaxed;\n    let prev = STATE.fetch_update(Relaxed, Relaxed, |s| Some(Rng::from_seed(s).next_raw())).unwrap();\n    Rng::from_seed(prev).next_raw() as Priority\n")]),
